@@ -47,6 +47,19 @@ BODY = {
 }
 
 
+# alternative bodies: terminators preceded by a copy of their own first character, empty bodies, bodies made of the very
+# characters that open tags
+BODY_VARIANTS = [
+    BODY,
+    {'comment': '<!-- <b> --->', 'cdata': '<![CDATA[ a[b[0]]]]>', 'pi': '<??>', 'script': '', 'style': '', 'text': ' > '},
+    {'comment': '<!---->', 'cdata': '<![CDATA[]]>', 'pi': '<? <b ??>', 'script': '<', 'style': '</ <', 'text': 't'},
+]
+
+
+def uses_body(forest):
+    return any(kind in BODY or uses_body(ch) for kind, ch, _ in forest)
+
+
 def count_forests(n, leaves, paired):
     "closed recurrence F(n) = sum_k T(k) F(n-k), T(1) = #leaves + #paired, T(k) = #paired * F(k-1)"
     F = [1]
@@ -98,7 +111,8 @@ def with_attrs(forest, path, attrs):
     return forest[:i] + [node] + forest[i + 1:]
 
 
-def emit(forest, xml=False):
+def emit(forest, xml=False, body=None):
+    BODY = body or globals()['BODY']
     out = []
     elements = []
     pos = [0]
